@@ -3,7 +3,7 @@
 (on /dev/shm copies of /repo's working tree) and require SILENCE: a check that reports a violation on
 a refactoring that keeps the property is a false alarm.
 
-usage: benign_all.py [--all-checks] [name ...]
+usage: benign_all.py [--all-checks] [--checks=C06,C15] [name ...]
 By default a refactoring is run against the checks whose property is anchored in a file it touches
 (properties.jsonl anchors.files), plus C12 (introspects every public callable)."""
 import glob
@@ -16,6 +16,7 @@ import sys
 from concurrent.futures import ThreadPoolExecutor
 
 allc = '--all-checks' in sys.argv
+only_checks = next((a.split('=', 1)[1].split(',') for a in sys.argv[1:] if a.startswith('--checks=')), None)
 names = [a for a in sys.argv[1:] if not a.startswith('--')] or sorted(os.path.basename(d) for d in glob.glob('/verif/benign/*') if os.path.isdir(d))
 props = [json.loads(l) for l in open('/verif/properties.jsonl')]
 claimed = [c['property_id'] for c in json.load(open('/verif/MANIFEST.json'))['checks']]
@@ -49,6 +50,8 @@ def run(name):
             out['error'] = 'patch failed: ' + (r.stdout + r.stderr)[-300:]
             return out
         for cid in ids:
+            if only_checks is not None and cid not in only_checks:
+                continue
             env = dict(os.environ, VERIF_REPO=root, VERIF_JOBS='4')
             rr = subprocess.run(['/verif/check', cid, '--no-evidence'], env=env, capture_output=True, text=True)
             sigs = [l.strip()[:260] for l in rr.stdout.splitlines() if l.startswith('  sig=')]
@@ -64,7 +67,10 @@ with ThreadPoolExecutor(4) as ex:
 path = '/verif/benign/RESULTS.json'
 old = {r['name']: r for r in (json.load(open(path)) if os.path.exists(path) else [])}
 for r in results:
-    old[r['name']] = r
+    if only_checks is not None and r['name'] in old and 'error' not in r:
+        old[r['name']]['checks'].update(r['checks'])     # partial re-run: refresh only the named checks
+    else:
+        old[r['name']] = r
 json.dump([old[k] for k in sorted(old)], open(path, 'w'), indent=1)
 for r in results:
     if 'error' in r:
